@@ -384,7 +384,7 @@ theorem nestedPersist_frame (tb : TB) (ctx : PCtx) (np : List Bytes) (ops : List
 def Group.bucket (own : List Bytes) (pp : Option (List Bytes)) (g : Group) : List Bytes :=
   (if g.parent then pp.getD [] else own) ++ g.np
 
-theorem runGroup_frame (st : RunState) (g : Group) (t : List Bytes) (hovr : g.ovr = none)
+theorem runGroup_frame (st : RunState) (g : Group) (t : List Bytes) (hovr : g.ovr = [])
     (hcreate : g.np ≠ [] → ¬ t <+: g.bucket st.ctx.path st.ctx.parentPath)
     (h : ∀ p ∈ g.ops, Skips st.ctx.chk p.1 p.2 ∨ Apart (g.bucket st.ctx.path st.ctx.parentPath ++ [p.1]) t) :
     nodeAt (runGroup st g).tb.es t = nodeAt st.tb.es t ∧ (runGroup st g).ctx = st.ctx := by
@@ -421,7 +421,7 @@ theorem runGroup_frame (st : RunState) (g : Group) (t : List Bytes) (hovr : g.ov
           · next hnp =>
             exact ⟨nestedPersist_frame st.tb _ g.np g.ops t (hcreate hnp) h, rfl⟩
 
-theorem runGroups_frame (gs : List Group) (st : RunState) (t : List Bytes) (hovr : ∀ g ∈ gs, g.ovr = none)
+theorem runGroups_frame (gs : List Group) (st : RunState) (t : List Bytes) (hovr : ∀ g ∈ gs, g.ovr = [])
     (hcreate : ∀ g ∈ gs, g.np ≠ [] → ¬ t <+: g.bucket st.ctx.path st.ctx.parentPath)
     (h : ∀ g ∈ gs, ∀ p ∈ g.ops, Skips st.ctx.chk p.1 p.2 ∨ Apart (g.bucket st.ctx.path st.ctx.parentPath ++ [p.1]) t) :
     nodeAt (runGroups st gs).tb.es t = nodeAt st.tb.es t := by
